@@ -60,13 +60,13 @@ var propMeta = map[string]meta{
 	},
 	"C06": {
 		Level:       "exploration",
-		Rule:        "one run = one open tunnel (websocket or legacy) relaying a client stream (1-12 DATA packets, thorough tier up to 60; payload sizes biased to 0, 1, 4085-4087, 4095-4097, 8182-8193, 16383/16384, 32768, 65534/65535 and uniform; 1 in 6 packets declares fewer or more bytes than it carries) and a host stream (1-12 writes up to 20000 bytes) under a tape-chosen interleaving of both directions, 0-3 stalls (gateway write held = slow client/slow host, delivery to the gateway held, peer reading slowly) and optional TCP re-segmentation of the client's writes; oracle at the end of a fault-free drain: host bytes == concatenation of declared payloads (min(declared,carried)); client DATA payloads == host stream; every DATA packet structurally well-formed; a packet declaring more than it carries may be forwarded as carried, dropped, or end the tunnel; non-trivial = bytes flowed both ways and >=1 stall fired; distinct = journal shape",
+		Rule:        "one run = one open tunnel (websocket or legacy) relaying a client stream (1-12 DATA packets, thorough tier up to 60; payload sizes biased to 0, 1, 4085-4087, 4095-4097, 8182-8193, 16383/16384, 32768, 65534/65535 and uniform; 1 in 6 packets declares fewer or more bytes than it carries) and a host stream (1-12 writes up to 20000 bytes; 1 run in 3 adds bursts of 65535/65536/65537/100000/131072/200000 bytes; in half of the runs the network may coalesce host writes before the gateway reads them) under a tape-chosen interleaving of both directions, 0-3 stalls (gateway write held = slow client/slow host, delivery to the gateway held, peer reading slowly) and optional TCP re-segmentation of the client's writes; oracle at the end of a fault-free drain: host bytes == concatenation of declared payloads (min(declared,carried)); client DATA payloads == host stream; every DATA packet structurally well-formed (header length == bytes sent, payload-length field == payload carried); a packet declaring more than it carries may be forwarded as carried, dropped, or end the tunnel; non-trivial = bytes flowed both ways and >=1 stall fired; distinct = journal shape",
 		Components:  comp(nil, nil),
 		Assumptions: append([]string{"streams up to ~0.8 MiB per direction in the thorough tier (60 packets x 65535), not several MiB"}, commonAssumptions...),
 	},
 	"C07": {
 		Level:       "exploration",
-		Rule:        "one run = 2-8 (thorough: 2-64) simultaneous tunnels with distinct connection ids, mixed transports, distinct users/tokens/hosts, self-identifying byte streams, 1 in 5 with a C01-style misbehaving history, optional close/drop, 0-2 stalls, setup/traffic/teardown interleaved by the tape; oracle: per tunnel the C01 reference machine, dial attribution by per-tunnel host names (at most one, the requested one), host bytes prefix of that tunnel's declared payloads, client DATA prefix of that tunnel's host stream (any foreign byte is a mismatch); non-trivial = >=2 tunnels moved bytes; distinct = journal shape",
+		Rule:        "one run = 2-8 (thorough: 2-64) simultaneous tunnels with distinct connection ids (braced GUIDs, plain GUIDs, short and long opaque tokens, ids that differ only in case), mixed transports, distinct users/tokens/hosts, self-identifying byte streams, 1 in 5 with a C01-style misbehaving history, optional close/drop, 0-2 stalls, setup/traffic/teardown interleaved by the tape; oracle: per tunnel the C01 reference machine, dial attribution by per-tunnel host names (at most one, the requested one), host bytes prefix of that tunnel's declared payloads, client DATA prefix of that tunnel's host stream (any foreign byte is a mismatch); a transport that cannot be established while others are active is a violation; non-trivial = >=2 tunnels moved bytes; distinct = journal shape",
 		Components:  comp(nil, nil),
 		Assumptions: append([]string{"connection identifiers are distinct, as the property states"}, commonAssumptions...),
 	},
@@ -78,37 +78,37 @@ var propMeta = map[string]meta{
 	},
 	"C11": {
 		Level:       "fault_enumeration",
-		Rule:        "end cause (CLOSE_CHANNEL, out-of-order packet, unframeable bytes, client EOF, client RST, legacy IN EOF/RST, legacy OUT EOF/RST) x end point (before handshake, after each of the four steps, data in flight to host, to client, both) x transport are enumerated by seed (144 cells, each cell visited >=10 times per quick run); within a cell the schedule, data sizes and an optional write stall at the moment of the end are sampled; oracle after a drain (faults off, host idle and not closing first, <=60 s simulated): every backend connection saw EOF/RST from the gateway, every client-facing connection was closed by the gateway, the number of goroutines with a frame in the protocol package is back to its value before the tunnel, the connection registry is empty, rdpgw_websocket_connections and rdpgw_legacy_connections (read through /metrics of the real binary) are back to their values; non-trivial = every run; distinct = journal shape",
+		Rule:        "end cause (CLOSE_CHANNEL, out-of-order packet, unframeable bytes, client EOF, client RST, legacy IN EOF/RST, legacy OUT EOF/RST) x end point (before handshake, after each of the four steps, data in flight to host, to client, both) x transport are enumerated by seed (144 cells, each cell visited >=10 times per quick run); within a cell the schedule, data sizes, the out-of-order request type, an optional write stall at the moment of the end, and a client that stops reading for good once host data flows (kept through the drain when the client stays connected and only relay writes are held) are sampled; oracle after a drain (faults off, host idle and not closing first, <=60 s simulated): every backend connection saw EOF/RST from the gateway, every client-facing connection was closed by the gateway, the number of goroutines with a frame in the protocol package is back to its value before the tunnel, the connection registry is empty, rdpgw_websocket_connections and rdpgw_legacy_connections (read through /metrics of the real binary) are back to their values; non-trivial = every run; distinct = journal shape",
 		Components:  comp(nil, nil),
 		Assumptions: append([]string{"rdpgw_connection_cache is a request-time sample of a TTL cache and is not asserted"}, commonAssumptions...),
 	},
 	"C03": {
 		Level:       "exploration",
-		Rule:        "one run = one tunnel under a drawn host policy (mode in roundrobin/unsigned/any/signed, host list with/without the user placeholder and an IPv6 entry, user name incl. empty and user@domain, token host = configured entry or the requested string) requesting a configured entry or one of 16 near-miss kinds (port, prefix, suffix, superstring, embedded/doubled NUL, no terminator, other user's entry, bracketed, surrogate pair, odd-length UTF-16, over-long length field, name containing a port); oracle: independent UTF-16 decode + policy model; every dial of the run must be the authorised request verbatim, a refusal must carry E_PROXY_RAP_ACCESSDENIED and cause zero dials; listeners exist for allowed and forbidden names; non-trivial = the channel request was sent; distinct = journal shape",
+		Rule:        "one run = one tunnel, in half of the runs preceded by a complete tunnel of another user on the same gateway instance (history: state such as caches must not carry an authorisation over), under a drawn host policy (mode in roundrobin/unsigned/any/signed, host list with/without the user placeholder and an IPv6 entry, user name incl. empty and user@domain, token host = configured entry or the requested string) requesting a configured entry or one of 19 near-miss kinds (port, prefix, suffix, superstring, embedded/doubled NUL, no terminator, other user's entry, bracketed, surrogate pair, odd-length UTF-16, over-long length field, name containing a port); oracle: independent UTF-16 decode + policy model; every dial of the run must be the authorised request verbatim, a refusal must carry E_PROXY_RAP_ACCESSDENIED and cause zero dials; listeners exist for allowed and forbidden names; non-trivial = the channel request was sent; distinct = journal shape",
 		Components:  comp(nil, nil),
 		Assumptions: append([]string{"for names containing surrogate code units only the authorised-set clause is asserted (the gateway decodes unit by unit)"}, commonAssumptions...),
 	},
 	"C04": {
 		Level:       "exploration",
-		Rule:        "one run = a cookie minted for address A (under the configured key) presented from address B (equal or different; IPv4/IPv6; as TCP peer or as first element of an X-Forwarded-For chain of length 1-5 with varied separators; legacy OUT channel optionally from a third address) under verifyclientip absent/true/false, both transports; oracle: channel created iff verification off or A==B textually, refusal carries an access-denied status and zero dials; non-trivial = channel request sent; distinct = journal shape",
+		Rule:        "one run = a cookie issued to address A - half of the runs through the real login + download flow of the gateway with the browser at A (as TCP peer or as first X-Forwarded-For element of a chain), half harness-minted under the configured key with clientIp = A - presented from address B (equal or different; IPv4/IPv6; as TCP peer or as first element of an X-Forwarded-For chain of length 1-5 with varied separators; legacy OUT channel optionally from a third address) under verifyclientip absent/true/false, both transports; oracle: channel created iff verification off or A==B textually, refusal carries an access-denied status and zero dials; non-trivial = channel request sent; distinct = journal shape",
 		Components:  comp(nil, nil),
-		Assumptions: append([]string{"issuance is represented by a harness-minted cookie whose clientIp claim is A; that issued files carry the requesting address is decided by C12", "same IP written differently is a don't-care region and is not generated"}, commonAssumptions...),
+		Assumptions: append([]string{"same IP written differently is a don't-care region and is not generated"}, commonAssumptions...),
 	},
 	"C16": {
 		Level:       "exploration",
-		Rule:        "one run = 1-2 tunnels with C01-style near-valid histories under a drawn policy (all 2^7 redirect switch combinations, idle timeout over the int32 range with boundary bias, smart-card on/off); every packet the gateway sends is decoded by an independent structural MS-TSGU decoder (type answers request, header length == bytes sent, optional fields exactly per fieldsPresent, no trailing bytes), status 0 iff the reference model accepted the step, capability/cookie/host refusals carry their MS-TSGU codes, tunnel-auth response redirection word and idle timeout equal what the configuration means; non-trivial = >=2 server packets decoded; distinct = journal shape",
+		Rule:        "one run = 1-2 tunnels (1 run in 5 NTLM-authenticated with token auth off) with C01-style near-valid histories under a drawn policy (all 2^7 redirect switch combinations, idle timeout over the int32 range with boundary bias, smart-card on/off); every packet the gateway sends is decoded by an independent structural MS-TSGU decoder (type answers request, header length == bytes sent, optional fields exactly per fieldsPresent, no trailing bytes), status 0 iff the reference model accepted the step, capability/cookie/host refusals carry their MS-TSGU codes, tunnel-auth response redirection word and idle timeout equal what the configuration means; non-trivial = >=2 server packets decoded; distinct = journal shape",
 		Components:  comp(nil, nil),
 		Assumptions: append([]string{"the close-channel response is accepted in either the MS-TSGU HTTP_CLOSE_PACKET layout or the channel-response layout the gateway uses, as long as it is consistent with its own fieldsPresent mask", "configuration and input dimensions are sampled"}, commonAssumptions...),
 	},
 	"C17": {
 		Level:       "exploration",
-		Rule:        "one run = one handshake (client capability word: boundary values, uniform uint16 or single bits; random version bytes) followed by tunnel-create and tunnel-auth, server smart-card on/off, token auth on; oracle: success iff both capability sets empty or intersecting, response advertises exactly the server set and echoes the version bytes, mismatch answered by E_PROXY_CAPABILITYMISMATCH, the stream ends and the following packets get nothing; non-trivial = every run; distinct = journal shape",
+		Rule:        "one run = one handshake (client capability word: boundary values, uniform uint16 or single bits; random version bytes) followed by tunnel-create and tunnel-auth; all four server settings of {cookie auth, smart card}: cookie auth off is reached through authentication [ntlm] with NTLM-authenticated tunnels; oracle: success iff both capability sets empty or intersecting, response advertises exactly the server set and echoes the version bytes, mismatch answered by E_PROXY_CAPABILITYMISMATCH, the stream ends and the following packets get nothing; non-trivial = every run; distinct = journal shape",
 		Components:  comp(nil, nil),
-		Assumptions: append([]string{"token auth off (server capability set without the cookie bit) needs a non-OpenID mechanism; those configurations are covered by the NTLM-authenticated variant when the auth node is enabled", "input dimension is sampled (uniform draws cover the 65536 values in the thorough tier)"}, commonAssumptions...),
+		Assumptions: append([]string{"input dimension is sampled (uniform draws cover the 65536 values in the thorough tier)"}, commonAssumptions...),
 	},
 	"C01": {
 		Level:       "exploration",
-		Rule:        "one run = 1-3 tunnels (websocket or legacy), each a near-valid MS-TSGU packet history (ideal exchange with <=2 of: skip, repeat, swap, inserted packet of any type, rejected cookie, denied/unreachable host, truncated body, unknown type; 0-2 packets after the end; optional client drop; dial black-hole) under a tape-chosen interleaving; non-trivial = some tunnel sent >=3 packets; distinct = distinct journal shape (sequence of scheduler action kinds and connection roles)",
+		Rule:        "one run = 1-3 tunnels (websocket or legacy), each a near-valid MS-TSGU packet history (ideal exchange with <=2 of: skip, repeat, swap, inserted packet of any type, rejected cookie, denied/unreachable host, truncated body, unknown type; 0-2 packets after the end; optional client drop; dial black-hole) under a tape-chosen interleaving; 1 run in 5 uses authentication [ntlm] with token auth off (every tunnel connection first performs the NTLM exchange through the auth node, tunnel-create carries no cookie); non-trivial = some tunnel sent >=3 packets; distinct = distinct journal shape (sequence of scheduler action kinds and connection roles)",
 		Components:  comp(nil, nil),
 		Assumptions: append([]string{"one packet per transport message and segment-preserving delivery (re-segmentation belongs to C08)", "legacy baseline client: OUT then IN, preamble as its own segment, one packet per HTTP chunk", "unknown packet types may be ignored or may end the tunnel; malformed bodies may be refused or read as zero fields (the safety clauses still apply)"}, commonAssumptions...),
 	},
